@@ -366,9 +366,11 @@ impl Sink {
 /// error is only acceptable from a sink that cannot take the document.
 fn check_sink(lf: &mut Lf, oc: &mut Oc, name: &dyn Fn() -> String, f: &SlurmFile, sink: Sink, pretty: bool) -> u64 {
     let form = if pretty { "to_writer_pretty" } else { "to_writer" };
-    let reference = if pretty { f.to_string_pretty() } else { f.to_string() };
     let wit = || format!("file={} form={form} sink={:?}", name(), sink);
-    match guard(|| sink.run(f, pretty, reference.len())) {
+    let r = guard(|| { let reference = if pretty { f.to_string_pretty() } else { f.to_string() }; let (res, got) = sink.run(f, pretty, reference.len()); (res, got, reference) });
+    let r = match r { Ok((res, got, reference)) => Ok((res, got, reference)), Err(p) => Err(p) };
+    let reference = match &r { Ok((_, _, re)) => re.clone(), Err(_) => String::new() };
+    match r.map(|(res, got, _)| (res, got)) {
         Err(p) => lf.fail("C15.json.no_panic", wit, || p.clone()),
         Ok((Err(e), got)) => {
             if sink.healthy() { lf.fail("C15.json.writer", wit, || format!("{form} failed ({e}) on a sink that accepts everything it is given; {} octets arrived", got.len())) }
@@ -391,6 +393,31 @@ fn check_sink(lf: &mut Lf, oc: &mut Oc, name: &dyn Fn() -> String, f: &SlurmFile
         }
     }
     4
+}
+
+/// Prefixes with the longest and shortest text forms of each family and
+/// length class: every group of 2a02:1234:5678:9abc:def0:1234:5678:9abc kept
+/// as far as the length allows (43 characters at /113../128), one-, two- and
+/// three-digit lengths, and the dotted-quad extremes.
+fn long_text_prefixes() -> Vec<MPfx> {
+    let a6: u128 = 0x2a02_1234_5678_9abc_def0_1234_5678_9abc;
+    let mut v: Vec<MPfx> = [1u8, 9, 10, 16, 17, 64, 99, 100, 112, 113, 120, 127, 128].iter().map(|&l| MPfx::of_addr(false, a6, l)).collect();
+    v.push(MPfx::v6(0xffff_ffff_ffff_ffff, 0xffff_ffff_ffff_ffff, 128));
+    v.push(MPfx::v6(0x1000_1000_1000_1000, 0x1000_1000_1000_1000, 128));
+    v.extend([MPfx::v4([255, 255, 255, 255], 32), MPfx::v4([255, 255, 255, 252], 30), MPfx::v4([100, 100, 100, 100], 32), MPfx::v4([128, 0, 0, 0], 1), MPfx::v4([255, 255, 255, 128], 25), MPfx::v4([1, 1, 1, 1], 32), MPfx::v4([0, 0, 0, 0], 9)]);
+    v
+}
+
+fn leak(s: String) -> &'static str { Box::leak(s.into_boxed_str()) }
+
+/// The house rule for quantities: 0..=40, the neighbourhoods of every power
+/// of two from 64 up to `max`, and `max` itself with its neighbours below.
+fn scale_counts(max: usize) -> Vec<usize> {
+    let mut v: Vec<usize> = (0..=40.min(max)).collect();
+    let mut p = 64usize;
+    while p <= max + 1 { for k in [p - 1, p, p + 1] { if k <= max { v.push(k) } } p *= 2 }
+    for k in [max.saturating_sub(1), max] { v.push(k) }
+    v.sort(); v.dedup(); v
 }
 
 /// IPv6 prefixes whose text form is unusual: IPv4-mapped and IPv4-compatible
@@ -453,6 +480,30 @@ fn emit_failures(ctx: &Ctx) {
     for (o, w, d) in v { ctx.fail(o, w, d) }
 }
 
+/// Runs one work unit; a panic that escapes the per-case guards (a library
+/// call made while preparing a case) becomes a violation instead of killing
+/// the explorer.
+fn unit<R>(what: impl FnOnce() -> String, f: impl FnOnce() -> R) -> Option<R> {
+    match guard(f) {
+        Ok(r) => Some(r),
+        Err(p) => { COLLECTED.lock().unwrap().push(("C15.no_panic", format!("while preparing: {}", what()), p)); None }
+    }
+}
+
+/// Runs the body of a whole space; if a panic still gets out, the space is
+/// closed as incomplete and the panic reported as a violation (exit 1).
+static ABORTED: Mutex<Vec<std::sync::Arc<rpki_verif::Space>>> = Mutex::new(Vec::new());
+
+fn space_body(ctx: &Ctx, sp: &std::sync::Arc<rpki_verif::Space>, f: impl FnOnce()) {
+    if let Err(p) = guard(f) {
+        sp.eval(); sp.outcome("aborted-by-panic"); sp.outcome("aborted");
+        ABORTED.lock().unwrap().push(sp.clone());
+        ctx.fail("C15.no_panic", format!("space {}", sp.name), p);
+    }
+}
+
+fn shown(f: impl FnOnce() -> String) -> String { guard(f).unwrap_or_else(|p| format!("<{p}>")) }
+
 type Oc = BTreeMap<&'static str, u64>;
 fn bump(oc: &mut Oc, k: &'static str) { *oc.entry(k).or_insert(0) += 1 }
 
@@ -464,8 +515,13 @@ const KF: [u8; 20] = [0xff; 20];
 
 /// The round trips the property names, on one file. Returns the number of
 /// executions.
-fn check_file(lf: &mut Lf, oc: &mut Oc, m: &MFile) -> u64 {
-    let wit = || m.text();
+fn clip(s: &str) -> String { if s.len() <= 700 { s.to_string() } else { let mut e = 700; while !s.is_char_boundary(e) { e -= 1 } format!("{}... ({} octets)", &s[..e], s.len()) } }
+
+fn check_file(lf: &mut Lf, oc: &mut Oc, m: &MFile) -> u64 { check_file_named(lf, oc, m, &|| m.text()) }
+
+/// Same, with a short name as the witness (for files too large to print).
+fn check_file_named(lf: &mut Lf, oc: &mut Oc, m: &MFile, name: &dyn Fn() -> String) -> u64 {
+    let wit = || clip(&name());
     let r = guard(|| {
         let f = m.lib();
         let compact = f.to_string();
@@ -490,13 +546,13 @@ fn check_file(lf: &mut Lf, oc: &mut Oc, m: &MFile) -> u64 {
                 let form = ["to_string/from_str", "to_string_pretty/from_str", "to_writer/from_reader", "to_writer_pretty/from_reader"][i];
                 match b {
                     Ok(g) if *g == f => bump(oc, "round-trip-equal"),
-                    Ok(_) => lf.fail("C15.json.roundtrip", wit, || format!("{form}: parsed file differs from the original; json={compact}")),
-                    Err(e) => lf.fail("C15.json.roundtrip", wit, || format!("{form}: own output rejected: {e}; json={compact}")),
+                    Ok(_) => lf.fail("C15.json.roundtrip", wit, || format!("{form}: parsed file differs from the original; json={}", clip(&compact))),
+                    Err(e) => lf.fail("C15.json.roundtrip", wit, || format!("{form}: own output rejected: {e}; json={}", clip(&compact))),
                 }
             }
             let want = m.payloads();
-            if pays != want { lf.fail("C15.assertions.payload", wit, || format!("iter_payload gave {:?} expected {:?}", pays.iter().map(|p| p.text()).collect::<Vec<_>>(), want.iter().map(|p| p.text()).collect::<Vec<_>>())) }
-            if let Some(pb) = pays_back { if pb != want { lf.fail("C15.assertions.payload.after_json", wit, || format!("iter_payload of the re-parsed file gave {:?}", pb.iter().map(|p| p.text()).collect::<Vec<_>>())) } }
+            if pays != want { lf.fail("C15.assertions.payload", wit, || clip(&format!("iter_payload gave {:?} expected {:?}", pays.iter().map(|p| p.text()).collect::<Vec<_>>(), want.iter().map(|p| p.text()).collect::<Vec<_>>()))) }
+            if let Some(pb) = pays_back { if pb != want { lf.fail("C15.assertions.payload.after_json", wit, || clip(&format!("iter_payload of the re-parsed file gave {:?}", pb.iter().map(|p| p.text()).collect::<Vec<_>>()))) } }
             if want.is_empty() { bump(oc, "no-assertions") } else { bump(oc, "assertions-yielded") }
         }
     }
@@ -521,7 +577,7 @@ fn main() {
     // ------------------------------------------------------------------ (1)
     let sp = ctx.space("filter.single",
         "every single filter against every payload item, through the filter's own drop_origin / drop_router_key / drop_aspa and drop_payload: prefix filters = {absent} + every length 0..32 (0..128) of the prefixes of 192.0.2.129, 2001:db8:0:8000::81 and the IPv4-mapped ::ffff:192.0.2.129, and of the address with the last prefix bit flipped, x AS {absent, equal, different}; origins = the same prefix grid x 2 AS; BGPsec filters = SKI {absent, K1, K2 (last bit differs)} x AS {absent, equal, different}; ASPA filters = customer {absent, equal, different, = a provider}; drop_payload of a filter on an item of another kind must be false; non-trivial = pairs where the filter has a criterion and is of the item's kind");
-    {
+    space_body(&ctx, &sp.clone(), || {
         let a4: u128 = 0xC000_0281; let a6: u128 = (0x2001_0db8_0000_8000u128 << 64) | 0x81;
         let mut grid: Vec<MPfx> = Vec::new();
         let a6m: u128 = 0x0000_ffff_c000_0281; // ::ffff:192.0.2.129 (IPv4-mapped)
@@ -534,7 +590,7 @@ fn main() {
         grid.sort(); grid.dedup();
         // an IPv6 prefix with the same leading bits as 192.0.2.0/24 and vice versa (family confusion)
         grid.push(MPfx::v6(0xC000_0200_0000_0000, 0, 24)); grid.push(MPfx::v4([0x20, 0x01, 0x0d, 0xb8], 32));
-        grid.extend(unusual_v6()); grid.sort(); grid.dedup();
+        grid.extend(unusual_v6()); grid.extend(long_text_prefixes()); grid.sort(); grid.dedup();
         let asns = [None, Some(64496u32), Some(64497)];
         let mut pfs: Vec<MPF> = Vec::new();
         for a in asns { pfs.push(MPF { prefix: None, asn: a, comment: None }); for &g in &grid { pfs.push(MPF { prefix: Some(g), asn: a, comment: None }) } }
@@ -552,6 +608,7 @@ fn main() {
             }
         }
         pfs.par_iter().for_each(|f| {
+            unit(|| format!("filter={}", f.text()), || {
             let mut lf = Lf::new(); let mut oc = Oc::new(); let (mut ev, mut nt) = (0u64, 0u64);
             let lf_ = f.lib();
             for (o, lo) in origins.iter().zip(lib_origins.iter()) {
@@ -570,6 +627,7 @@ fn main() {
                 if guard(|| lf_.drop_payload(p)) != Ok(false) { lf.fail("C15.filter.prefix", || format!("filter={} payload={}", f.text(), m.text()), || "a prefix filter dropped an item of another kind".into()) }
             }
             sp.evals(ev); sp.nontrivial(nt); sp.merge_outcomes(&oc);
+            });
         });
         let mut lf = Lf::new(); let mut oc = Oc::new();
         for ski in [None, Some(K1), Some(K2)] { for asn in asns {
@@ -611,13 +669,13 @@ fn main() {
         sp.merge_outcomes(&oc);
         sp.set("prefix_grid", serde_json::json!(grid.len()));
         sp.sample_str(|| format!("{} prefix filters x {} origins", pfs.len(), origins.len()));
-    }
+    });
     sp.done(true, "all single filters x all payload items");
 
     // ------------------------------------------------------------------ (2)
     let sp = ctx.space("drop.filter_lists",
         "all prefix-filter lists of length <= 2 x all BGPsec-filter lists of length <= 2 x ASPA section {absent} + all lists of length <= 2 (thorough: prefix lists <= 3 with the other kinds <= 1 in addition), each against 8 origins (incl. IPv4-mapped IPv6), 4 router keys, 3 ASPAs, through ValidationOutputFilters::drop_payload and through SlurmFile::drop_payload of three files holding those filters (SlurmFile::new; new without ASPA sections then the public fields assigned; default() then filters assigned); criterion alphabets: prefix {absent, equal, covering /16, more specific /25, disjoint, other family, same leading bits in the other family, 0.0.0.0/0, ::/0, ::ffff:0:0/96, ::ffff:192.0.2.0/120, ::192.0.2.0/120} x AS {absent, equal, different} (+ one with a comment), SKI {absent, equal, different} x AS likewise, customer {absent, equal, different, = a provider of the item}; non-trivial = (lists, item) pairs in which some filter of the item's kind has a criterion; outcome classes count the reference verdicts (kept / dropped by kind), which the library must reproduce");
-    {
+    space_body(&ctx, &sp.clone(), || {
         let base = MPfx::v4([192, 0, 2, 0], 24);
         let pfx_alpha: Vec<Option<MPfx>> = vec![None, Some(base), Some(MPfx::v4([192, 0, 0, 0], 16)), Some(MPfx::v4([192, 0, 2, 0], 25)), Some(MPfx::v4([198, 51, 100, 0], 24)),
             Some(MPfx::v6(0x2001_0db8_0000_0000, 0, 32)), Some(MPfx::v6(0xC000_0200_0000_0000, 0, 24)), Some(MPfx::v4([0, 0, 0, 0], 0)), Some(MPfx::v6(0, 0, 0)),
@@ -693,9 +751,11 @@ fn main() {
             sp.outcomes_n("kept", cnt[2]); sp.outcomes_n("dropped-origin", cnt[3]); sp.outcomes_n("dropped-router-key", cnt[4]); sp.outcomes_n("dropped-aspa", cnt[5]);
         };
         (0..pf_lists.len()).into_par_iter().for_each(|pi| {
+            unit(|| format!("prefix filter list #{pi}"), || {
             let mut lf = Lf::new(); let mut cnt = [0u64; 6];
             for bi in 0..bf_lists.len() { for ai in 0..af_lists.len() { run(pi, bi, ai, &mut lf, &mut cnt) } }
             flush(&cnt);
+            });
         });
         let mut bound = format!("{} prefix lists x {} BGPsec lists x {} ASPA sections x {} items", pf_lists.len(), bf_lists.len(), af_lists.len(), pays.len());
         if thorough {
@@ -704,6 +764,7 @@ fn main() {
             let bf1: Vec<usize> = (0..bf_lists.len()).filter(|&i| bf_lists[i].len() <= 1).collect();
             let af1: Vec<usize> = (0..af_lists.len()).filter(|&i| af_lists[i].as_ref().map_or(true, |l| l.len() <= 1)).collect();
             pf3.par_iter().for_each(|mp| {
+                unit(|| format!("prefix filter list of 3: {}", filters_text(mp, &[], None)), || {
                 let mut lf = Lf::new(); let mut cnt = [0u64; 6];
                 let lp: Vec<PrefixFilter> = mp.iter().map(|f| f.lib()).collect();
                 let crit = mp.iter().any(|f| f.prefix.is_some() || f.asn.is_some());
@@ -722,6 +783,7 @@ fn main() {
                     }
                 }}
                 flush(&cnt);
+                });
             });
             bound.push_str(&format!(" + {} prefix lists of length 3 x {} x {}", pf3.len(), bf1.len(), af1.len()));
         }
@@ -733,12 +795,13 @@ fn main() {
         // -------------------------------------------------------------- (2b)
         let sp = ctx.space("drop.file_forms",
             "filter lists of length <= 1 per always-present kind x ASPA section {absent} + all lists of length <= 2, each held by every kind of file: parsed from hand-written RFC 8416 text with slurmVersion {1,2} x absent ASPA sections {left out, null} x aspaAssertions {absent, [], one entry}; built by SlurmFile::new and then changed through every public field (from a file without ASPA sections, from default(), from a file with other ASPA filters, assertions added afterwards, ASPA filters cleared and restored); cloned; written and parsed back. SlurmFile::drop_payload and ValidationOutputFilters::drop_payload on all 15 items must equal the reference predicate (which does not look at the version number); parsed files must also survive to_string -> from_str and yield their assertion's payload; non-trivial = (file, item) pairs in which a filter of the item's kind has a criterion; rejected texts are counted, not judged");
-        {
+        space_body(&ctx, &sp.clone(), || {
             let pf1: Vec<usize> = (0..pf_lists.len()).filter(|&i| pf_lists[i].len() <= 1).collect();
             let bf1: Vec<usize> = (0..bf_lists.len()).filter(|&i| bf_lists[i].len() <= 1).collect();
             let one_aa = MAA { customer: 64496, providers: vec![64499, 64497], comment: None };
             let one_pa = MPA { p: MPfx::v6(0, 0x0000_ffff_c000_0200, 120), maxlen: Some(124), asn: 64496, comment: None };
             pf1.par_iter().for_each(|&pi| {
+                unit(|| format!("file forms, prefix filter list #{pi}"), || {
                 let mut lf = Lf::new(); let mut oc = Oc::new(); let (mut ev, mut nt) = (0u64, 0u64);
                 for &bi in &bf1 { for ai in 0..af_lists.len() {
                     let (mp, mb, ma) = (&pf_lists[pi], &bf_lists[bi], af_lists[ai].as_deref());
@@ -812,11 +875,12 @@ fn main() {
                     }
                 }}
                 sp.evals(ev); sp.nontrivial(nt); sp.merge_outcomes(&oc);
+                });
             });
             sp.sample_str(|| MFile { pf: pf_lists[pf1[2]].clone(), bf: vec![], af: Some(vec![af_items[1].clone()]), pa: vec![], ba: vec![], aa: None }.json(1, false));
             sp.done(true, &format!("{} prefix lists x {} BGPsec lists x {} ASPA sections x up to 19 file forms x {} items", pf1.len(), bf1.len(), af_lists.len(), pays.len()));
-        }
-    }
+        });
+    });
 
     // ------------------------------------------------------------------ (3)
     let comments: [Cm; 4] = [None, Some(""), Some("plain text"), Some(TRICKY)];
@@ -830,7 +894,7 @@ fn main() {
     };
     let pf_entries: Vec<MPF> = {
         let mut v = pf_entries;
-        for p in unusual_v6().into_iter().chain([MPfx::v4([255, 255, 255, 255], 32), MPfx::v4([192, 0, 2, 1], 32)]) { for a in [None, Some(64496u32)] { v.push(MPF { prefix: Some(p), asn: a, comment: None }) } }
+        for p in unusual_v6().into_iter().chain(long_text_prefixes()).chain([MPfx::v4([192, 0, 2, 1], 32)]) { for a in [None, Some(64496u32)] { v.push(MPF { prefix: Some(p), asn: a, comment: None }) } }
         v
     };
     let bf_entries: Vec<MBF> = {
@@ -855,7 +919,7 @@ fn main() {
     };
     let pa_entries: Vec<MPA> = {
         let mut v = pa_entries;
-        for p in unusual_v6().into_iter().chain([MPfx::v4([255, 255, 255, 255], 32)]) {
+        for p in unusual_v6().into_iter().chain(long_text_prefixes()) {
             let w = p.width() as u8;
             let mut mls = vec![None, Some(p.len), Some(w)]; if p.len < w { mls.push(Some(p.len + 1)) }
             mls.dedup();
@@ -879,7 +943,7 @@ fn main() {
 
     let sp = ctx.space("json.sections",
         "for each of the six sections: every list of <= 2 entries over that section's full entry alphabet (all other sections empty, ASPA sections absent unless it is the section under test): to_string / to_string_pretty / to_writer / to_writer_pretty parsed back by from_str / from_reader must equal the file; iter_payload of the file and of the re-parsed file must yield exactly the assertion fields (prefix, max-length incl. absent vs present, AS; SKI, AS, key octets; customer, providers in order) in section order, and every accessor of each yielded item (is_v4, payload_type, to_origin / as_router_key / as_aspa, Aspa::key, ProviderAsns::asn_count / len / is_empty, RouterKeyInfo::into_bytes / as_ref) must agree with those fields; non-trivial = files with at least one entry");
-    {
+    space_body(&ctx, &sp.clone(), || {
         let mut files: Vec<MFile> = Vec::new();
         for l in lists(&pf_entries, 2) { files.push(MFile { pf: l, ..Default::default() }) }
         for l in lists(&bf_entries, 2) { files.push(MFile { bf: l, ..Default::default() }) }
@@ -888,25 +952,27 @@ fn main() {
         for l in lists(&ba_entries, 2) { files.push(MFile { ba: l, ..Default::default() }) }
         for l in lists(&aa_entries, 2) { files.push(MFile { aa: Some(l), ..Default::default() }) }
         files.par_chunks(64).for_each(|ch| {
+            unit(|| format!("files starting with {}", ch[0].text()), || {
             let mut lf = Lf::new(); let mut oc = Oc::new(); let (mut ev, mut nt) = (0u64, 0u64);
             for m in ch {
                 ev += check_file(&mut lf, &mut oc, m);
                 if !(m.pf.is_empty() && m.bf.is_empty() && m.pa.is_empty() && m.ba.is_empty() && m.af.as_ref().map_or(true, |x| x.is_empty()) && m.aa.as_ref().map_or(true, |x| x.is_empty())) { nt += 1 }
             }
             sp.evals(ev); sp.nontrivial(nt); sp.merge_outcomes(&oc);
+            });
         });
         sp.set("entry_alphabet_sizes", serde_json::json!({"prefixFilters": pf_entries.len(), "bgpsecFilters": bf_entries.len(), "aspaFilters": af_entries.len(),
             "prefixAssertions": pa_entries.len(), "bgpsecAssertions": ba_entries.len(), "aspaAssertions": aa_entries.len()}));
         sp.set("files", serde_json::json!(files.len()));
-        sp.sample_str(|| files[files.len() / 2].lib().to_string());
+        sp.sample_str(|| shown(|| files[files.len() / 2].lib().to_string()));
         sp.sample_str(|| files[files.len() - 1].text());
         sp.done(true, "all lists of <= 2 entries per section over the full entry alphabets");
-    }
+    });
 
     // ------------------------------------------------------------------ (4)
     let sp = ctx.space("json.cross_sections",
         "all combinations of per-section menus {[], [e1], [e1,e2], [e2]} for the four always-present sections and {absent, [], [e1], [e1,e2]} for the two ASPA sections (4^4 x 4^2 files): same round-trip and iter_payload oracles; non-trivial = files with entries in at least two sections");
-    {
+    space_body(&ctx, &sp.clone(), || {
         fn menu<T: Clone>(a: &T, b: &T) -> Vec<Vec<T>> { vec![vec![], vec![a.clone()], vec![a.clone(), b.clone()], vec![b.clone()]] }
         let m_pf = menu(&pf_entries[27], &pf_entries[0]); // {v4 /24, asn 0x.., tricky comment} and the empty filter
         let m_bf = menu(&bf_entries[7], &bf_entries[0]);
@@ -919,6 +985,7 @@ fn main() {
             files.push(MFile { pf: a.clone(), bf: b.clone(), af: c.clone(), pa: d.clone(), ba: e.clone(), aa: f.clone() })
         }}}}}}
         files.par_chunks(64).for_each(|ch| {
+            unit(|| format!("files starting with {}", ch[0].text()), || {
             let mut lf = Lf::new(); let mut oc = Oc::new(); let (mut ev, mut nt) = (0u64, 0u64);
             for m in ch {
                 ev += check_file(&mut lf, &mut oc, m);
@@ -926,15 +993,16 @@ fn main() {
                 if filled.iter().filter(|x| **x).count() >= 2 { nt += 1 }
             }
             sp.evals(ev); sp.nontrivial(nt); sp.merge_outcomes(&oc);
+            });
         });
-        sp.sample_str(|| files[files.len() - 1].lib().to_string());
+        sp.sample_str(|| shown(|| files[files.len() - 1].lib().to_string()));
         sp.done(true, &format!("all {} menu combinations", files.len()));
-    }
+    });
 
     // ------------------------------------------------------------------ (4b)
     let sp = ctx.space("json.writers",
         "the writer as a dimension: to_writer and to_writer_pretty of (A) seven files from 150 octets to > 100 KiB into every sink of the menu, (B) every single-entry file of every section into the sinks {1 octet per call, 7 per call, first call 1 octet, exact slice, slice one short}; sinks: Vec, at most k octets per call (k = 1,2,7,64,4096), first call takes 1 octet, Cursor over a slice exactly large enough / 10 larger / 1 and 17 too short / empty, ErrorKind::Interrupted once (then everything, then 7 per call), BufWriter (capacity 8192,16,1,65536) around a k-per-call sink, a sink that breaks after 0 / 10 octets. Oracle: if the call returns Ok the octets that arrived must parse back, through readers returning 1, 7 and 4096 octets per call, to an equal file; an error is acceptable only from a sink that cannot take the document; non-trivial = cases whose sink does not take the whole document in one call");
-    {
+    space_body(&ctx, &sp.clone(), || {
         let cyc = |n: usize| -> Vec<MPA> { (0..n).map(|i| pa_entries[i % pa_entries.len()].clone()).collect() };
         let big_ba: Vec<MBA> = ba_entries.iter().filter(|b| b.info.len() == 91).take(20).cloned().collect();
         let named: Vec<(&'static str, MFile)> = vec![
@@ -950,11 +1018,14 @@ fn main() {
         let mut work: Vec<(usize, Sink, bool)> = Vec::new();
         for i in 0..named.len() { for &s in &sinks { for pretty in [false, true] { work.push((i, s, pretty)) } } }
         let libs: Vec<SlurmFile> = named.iter().map(|(_, m)| m.lib()).collect();
+        let sizes: Vec<usize> = libs.iter().map(|f| guard(|| f.to_string().len()).unwrap_or(0)).collect();
         work.par_iter().for_each(|&(i, sink, pretty)| {
+            unit(|| format!("file={} sink={:?} pretty={pretty}", named[i].0, sink), || {
             let mut lf = Lf::new(); let mut oc = Oc::new();
-            let ev = check_sink(&mut lf, &mut oc, &|| format!("{} ({} octets compact)", named[i].0, libs[i].to_string().len()), &libs[i], sink, pretty);
+            let ev = check_sink(&mut lf, &mut oc, &|| format!("{} ({} octets compact)", named[i].0, sizes[i]), &libs[i], sink, pretty);
             sp.evals(ev); if sink != Sink::Vec && sink != Sink::SliceExact && !matches!(sink, Sink::SlicePlus(_)) { sp.nontrivial(1) }
             sp.merge_outcomes(&oc);
+            });
         });
         // SlurmFile::default() itself (version 2, no ASPA sections)
         {
@@ -972,24 +1043,137 @@ fn main() {
         for e in &aa_entries { singles.push(MFile { aa: Some(vec![e.clone()]), ..Default::default() }) }
         let few = [Sink::Chunk(1), Sink::Chunk(7), Sink::FirstOne, Sink::SliceExact, Sink::SliceShort(1)];
         singles.par_chunks(16).for_each(|ch| {
+            unit(|| format!("single-entry files starting with {}", ch[0].text()), || {
             let mut lf = Lf::new(); let mut oc = Oc::new(); let (mut ev, mut nt) = (0u64, 0u64);
             for m in ch {
                 let f = m.lib();
                 for s in few { for pretty in [false, true] { ev += check_sink(&mut lf, &mut oc, &|| m.text(), &f, s, pretty); if s != Sink::SliceExact { nt += 1 } } }
             }
             sp.evals(ev); sp.nontrivial(nt); sp.merge_outcomes(&oc);
+            });
         });
-        sp.set("file_sizes_compact", serde_json::json!(named.iter().zip(libs.iter()).map(|((n, _), f)| (n.to_string(), f.to_string().len())).collect::<BTreeMap<_, _>>()));
+        sp.set("file_sizes_compact", serde_json::json!(named.iter().zip(sizes.iter()).map(|((n, _), z)| (n.to_string(), *z)).collect::<BTreeMap<_, _>>()));
         sp.set("sinks", serde_json::json!(sinks.iter().map(|s| format!("{s:?}")).collect::<Vec<_>>()));
         sp.set("single_entry_files", serde_json::json!(singles.len()));
         sp.sample_str(|| format!("file=over-8KiB form=to_writer sink={:?}", Sink::Chunk(7)));
         sp.done(true, &format!("{} files x {} sinks x 2 forms + {} single-entry files x {} sinks x 2 forms", named.len() + 1, sinks.len(), singles.len(), few.len()));
-    }
+    });
+
+    // ------------------------------------------------------------------ (4c)
+    let sp = ctx.space("json.scale",
+        "every quantity of a file swept through 0..=40, the neighbourhoods k-1,k,k+1 of the powers of two from 64 up to its maximum, and the maximum with its neighbours: providers per ASPA assertion (.. 16379, 16380 = ProviderAsns::MAX_COUNT; 16381, 16384, 16385 cannot be built: the hand-written text is offered to the parser and only counted), router key octets (quick to 65537, thorough to 2^20+1), entries per section for each of the six sections (0..=40, 63..65, 127..129, 255..257, 1023..1025; thorough to 16385), comment length in characters (ASCII, two-octet, all-quotes; quick to 65537, thorough to 2^20+1); same oracles as the small files: four serialise/parse pairings equal, iter_payload exact. Filter lists of every such size with the only matching filter FIRST, in the MIDDLE, LAST or absent must drop / keep the item (reference predicate); non-trivial = every case with a count above 2");
+    space_body(&ctx, &sp.clone(), || {
+        let big = if thorough { (1usize << 20) + 1 } else { 65537 };
+        let n_entries: Vec<usize> = scale_counts(if thorough { 16385 } else { 1025 });
+        #[derive(Clone)]
+        enum Case { Providers(usize), KeyInfo(usize), Entries(usize, usize), Comment(usize, usize), Drop(usize, usize, usize) }
+        let mut cases: Vec<Case> = Vec::new();
+        for n in scale_counts(16380).into_iter().chain([16381, 16384, 16385]) { cases.push(Case::Providers(n)) }
+        for n in scale_counts(big) { cases.push(Case::KeyInfo(n)) }
+        for sec in 0..6 { for &n in &n_entries { cases.push(Case::Entries(sec, n)) } }
+        for kind in 0..3 { for n in scale_counts(big) { cases.push(Case::Comment(kind, n)) } }
+        for kind in 0..3 { for &n in &n_entries { if n > 0 { for pos in 0..4 { cases.push(Case::Drop(kind, n, pos)) } } } }
+        let provs = |n: usize| -> Vec<u32> { (0..n).map(|i| if i + 1 == n { u32::MAX } else { (i as u32).wrapping_mul(7).wrapping_add(1) }).collect() };
+        let (pf_entries, bf_entries, af_entries, pa_entries, ba_entries, aa_entries) = (&pf_entries, &bf_entries, &af_entries, &pa_entries, &ba_entries, &aa_entries);
+        cases.par_iter().for_each(|case| {
+            let mut lf = Lf::new(); let mut oc = Oc::new(); let mut ev = 0u64;
+            let desc: String = match case { Case::Providers(n) => format!("one ASPA assertion with {n} providers"), Case::KeyInfo(n) => format!("one BGPsec assertion with a {n}-octet key"),
+                Case::Entries(sec, n) => format!("{n} entries in section {}", ["prefixFilters", "bgpsecFilters", "aspaFilters", "prefixAssertions", "bgpsecAssertions", "aspaAssertions"][*sec]),
+                Case::Comment(kind, n) => format!("comments of {n} characters ({})", ["ASCII", "two-octet characters", "quotes and backslashes"][*kind]),
+                Case::Drop(kind, n, pos) => format!("{n} {} filters, the matching one {}", ["prefix", "BGPsec", "ASPA"][*kind], ["first", "in the middle", "last", "absent"][*pos]) };
+            let size = match case { Case::Providers(n) | Case::KeyInfo(n) | Case::Entries(_, n) | Case::Comment(_, n) | Case::Drop(_, n, _) => *n };
+            unit(|| desc.clone(), || match case {
+                Case::Providers(n) => {
+                    let m = MFile { aa: Some(vec![MAA { customer: 64496, providers: provs(*n), comment: None }]), ..Default::default() };
+                    let buildable = guard(|| ProviderAsns::try_from_iter(provs(*n).into_iter().map(Asn::from_u32)).is_ok());
+                    match &buildable {
+                        Err(p) => lf.fail("C15.json.no_panic", || desc.clone(), || p.clone()),
+                        Ok(true) => { ev += check_file_named(&mut lf, &mut oc, &m, &|| desc.clone()); bump(&mut oc, "built") }
+                        Ok(false) => bump(&mut oc, "cannot-be-built"),
+                    }
+                    // the same file as hand-written text
+                    let text = m.json(2, false);
+                    ev += 1;
+                    match guard(|| SlurmFile::from_str(&text).ok().map(|f| {
+                        let back = SlurmFile::from_str(&f.to_string()).map(|g| g == f).map_err(|e| e.to_string());
+                        let pays: Vec<MPay> = f.assertions.iter_payload().map(|p| fields_of(&p)).collect();
+                        (back, pays)
+                    })) {
+                        Err(p) => lf.fail("C15.json.no_panic", || format!("{desc} as hand-written text"), || p.clone()),
+                        Ok(None) => bump(&mut oc, if buildable == Ok(true) { "text-rejected-though-buildable" } else { "text-rejected" }),
+                        Ok(Some((back, pays))) => {
+                            bump(&mut oc, "text-accepted");
+                            if back != Ok(true) { lf.fail("C15.json.roundtrip", || format!("{desc} as hand-written text"), || format!("the parsed file does not survive to_string -> from_str: {:?}", back)) }
+                            if pays != m.payloads() { lf.fail("C15.assertions.payload", || format!("{desc} as hand-written text"), || format!("iter_payload yields {} items, first with {} providers", pays.len(), match pays.first() { Some(MPay::Aspa { providers, .. }) => providers.len(), _ => 0 })) }
+                        }
+                    }
+                }
+                Case::KeyInfo(n) => {
+                    let m = MFile { ba: vec![MBA { asn: 64496, ski: K1, info: (0..*n).map(|i| (i * 131 + 7) as u8).collect(), comment: None }], ..Default::default() };
+                    ev += check_file_named(&mut lf, &mut oc, &m, &|| desc.clone());
+                }
+                Case::Entries(sec, n) => {
+                    let cyc = |len: usize, i: usize| (i * 7 + i / len) % len;
+                    let mut m = MFile::default();
+                    match sec {
+                        0 => m.pf = (0..*n).map(|i| pf_entries[cyc(pf_entries.len(), i)].clone()).collect(),
+                        1 => m.bf = (0..*n).map(|i| bf_entries[cyc(bf_entries.len(), i)].clone()).collect(),
+                        2 => m.af = Some((0..*n).map(|i| af_entries[cyc(af_entries.len(), i)].clone()).collect()),
+                        3 => m.pa = (0..*n).map(|i| pa_entries[cyc(pa_entries.len(), i)].clone()).collect(),
+                        4 => m.ba = (0..*n).map(|i| ba_entries[cyc(ba_entries.len(), i)].clone()).collect(),
+                        _ => m.aa = Some((0..*n).map(|i| aa_entries[cyc(aa_entries.len(), i)].clone()).collect()),
+                    }
+                    ev += check_file_named(&mut lf, &mut oc, &m, &|| desc.clone());
+                }
+                Case::Comment(kind, n) => {
+                    let c: Cm = Some(leak(match kind { 0 => "a".repeat(*n), 1 => "\u{e9}".repeat(*n), _ => "\"\\".repeat(*n / 2) + &"\"".repeat(*n % 2) }));
+                    let m = MFile { pf: vec![MPF { prefix: None, asn: Some(1), comment: c }], bf: vec![MBF { ski: None, asn: None, comment: c }], af: Some(vec![MAF { customer: None, comment: c }]),
+                        pa: vec![MPA { p: MPfx::v4([192, 0, 2, 0], 24), maxlen: None, asn: 1, comment: c }], ba: vec![MBA { asn: 1, ski: K1, info: vec![1], comment: c }], aa: Some(vec![MAA { customer: 1, providers: vec![2], comment: c }]) };
+                    ev += check_file_named(&mut lf, &mut oc, &m, &|| desc.clone());
+                }
+                Case::Drop(kind, n, pos) => {
+                    let hit = match pos { 0 => Some(0), 1 => Some(n / 2), 2 => Some(n - 1), _ => None };
+                    let mut m = MFile::default();
+                    let items: Vec<MPay> = match kind {
+                        0 => { m.pf = (0..*n).map(|i| if Some(i) == hit { MPF { prefix: Some(MPfx::v4([192, 0, 0, 0], 16)), asn: None, comment: None } }
+                                   else { MPF { prefix: Some(MPfx::v4([10, (i >> 8) as u8, i as u8, 0], 24)), asn: if i % 3 == 0 { Some(64000 + (i % 100) as u32) } else { None }, comment: None } }).collect();
+                               vec![MPay::Origin { p: MPfx::v4([192, 0, 2, 0], 24), maxlen: None, asn: 64496 }, MPay::Origin { p: MPfx::v4([198, 51, 100, 0], 24), maxlen: None, asn: 64496 },
+                                    MPay::Origin { p: MPfx::v4([10, 0, 0, 0], 24), maxlen: Some(25), asn: 1 }, MPay::Origin { p: MPfx::v4([10, ((*n - 1) >> 8) as u8, (*n - 1) as u8, 0], 24), maxlen: None, asn: 64000 + ((*n - 1) % 100) as u32 }] }
+                        1 => { m.bf = (0..*n).map(|i| if Some(i) == hit { MBF { ski: Some(K1), asn: None, comment: None } } else { let mut k = K2; k[0] = (i >> 8) as u8; k[1] = i as u8; k[2] = 0x55; MBF { ski: Some(k), asn: None, comment: None } }).collect();
+                               vec![MPay::Key { ski: K1, asn: 64496, info: vec![1] }, MPay::Key { ski: K0, asn: 64496, info: vec![1] }, { let mut k = K2; k[0] = ((*n - 1) >> 8) as u8; k[1] = (*n - 1) as u8; k[2] = 0x55; MPay::Key { ski: k, asn: 1, info: vec![] } }] }
+                        _ => { m.af = Some((0..*n).map(|i| MAF { customer: Some(if Some(i) == hit { 64496 } else { 100_000 + i as u32 }), comment: None }).collect());
+                               vec![MPay::Aspa { customer: 64496, providers: vec![100_000] }, MPay::Aspa { customer: 99_999, providers: vec![64496] }, MPay::Aspa { customer: 100_000 + (*n - 1) as u32, providers: vec![] }] }
+                    };
+                    let file = m.lib();
+                    let reparsed = if *n <= 1025 { SlurmFile::from_str(&file.to_string()).ok() } else { None };
+                    for it in &items {
+                        let want = model_drop(&m.pf, &m.bf, m.af.as_deref(), it);
+                        let lp = it.lib();
+                        let oracle = match it { MPay::Origin { .. } => "C15.drop.origin", MPay::Key { .. } => "C15.drop.router_key", MPay::Aspa { .. } => "C15.drop.aspa" };
+                        ev += 2;
+                        match guard(|| (file.drop_payload(&lp), file.filters.drop_payload(&lp), reparsed.as_ref().map(|f| f.drop_payload(&lp)))) {
+                            Err(p) => lf.fail("C15.drop.no_panic", || format!("{desc} payload={}", it.text()), || p.clone()),
+                            Ok((a, b, c)) => if a != want || b != want || c.map_or(false, |c| c != want) {
+                                lf.fail(oracle, || format!("{desc} payload={}", it.text()), || format!("SlurmFile::drop_payload={a} ValidationOutputFilters::drop_payload={b} after JSON={:?}; the reference predicate says {want}", c))
+                            }
+                        }
+                        bump(&mut oc, if want { "dropped" } else { "kept" });
+                    }
+                }
+            });
+            sp.evals(ev); if size > 2 { sp.nontrivial(1) } sp.merge_outcomes(&oc);
+        });
+        sp.set("counts_providers", serde_json::json!(scale_counts(16380)));
+        sp.set("counts_entries", serde_json::json!(n_entries));
+        sp.set("counts_octets_and_characters", serde_json::json!(scale_counts(big)));
+        sp.sample_str(|| "one ASPA assertion with 16380 providers".to_string());
+    });
+    sp.done(true, "all listed counts for providers, key octets, entries per section, comment lengths, and filter lists with the match first / middle / last / absent");
 
     // ------------------------------------------------------------------ (5)
     let sp = ctx.space("json.text_inputs",
         "files obtained by parsing hand-written RFC 8416 JSON (the RFC's own examples' shapes: members in other orders, extra whitespace, aspa members absent / null / present, version 1 and 2, \\u escapes in comments, padded and unpadded Base64): whatever from_str accepts must survive to_string -> from_str and to_string_pretty -> from_str unchanged; rejected texts are only counted; non-trivial = accepted texts");
-    {
+    space_body(&ctx, &sp.clone(), || {
         let ski = "PI8aIgURlvsA_36AAQIDBKq7zN0";
         let texts: Vec<String> = vec![
             r#"{"slurmVersion":1,"validationOutputFilters":{"prefixFilters":[],"bgpsecFilters":[]},"locallyAddedAssertions":{"prefixAssertions":[],"bgpsecAssertions":[]}}"#.into(),
@@ -1020,9 +1204,10 @@ fn main() {
             }
         }
         sp.sample_str(|| texts[3].clone());
-    }
+    });
     sp.done(true, "all listed texts");
 
+    for sp in ABORTED.lock().unwrap().iter() { sp.done(false, "aborted by a panic outside the guarded cases") }
     emit_failures(&ctx);
     ctx.finish();
 }
